@@ -337,6 +337,18 @@ size_t make_segmentation(size_t n, size_t start, size_t end, size_t epsilon, Fin
     }
     if (end >= start + 2 && in(end - 1) != in(end - 2))
         add_point(in(end - 1), end - 1);
+    else if (end >= start + 2 && end < n) {
+        // The chunk ends with a run of duplicate keys (make_segmentation_par extends a chunk up to the end of such a
+        // run): as in the loop above, the values between the run and the next key are mapped to the rank end - 1.
+        if constexpr (std::is_floating_point_v<K>) {
+            K next;
+            if ((next = std::nextafter(in(end - 1), std::numeric_limits<K>::infinity())) < in(end))
+                add_point(next, end - 1);
+        } else {
+            if (in(end - 1) + 1 < in(end))
+                add_point(in(end - 1) + 1, end - 1);
+        }
+    }
 
     if (end == n) {
         // Ensure values greater than the last one are mapped to n
@@ -380,6 +392,9 @@ size_t make_segmentation_par(size_t n, size_t epsilon, Fin in, Fout out) {
     for (auto i = 0; i < parallelism; ++i) {
         auto first = i * chunk_size;
         auto last = i == parallelism - 1 ? n : first + chunk_size;
+        for (; last < n; ++last) // a run of duplicates crossing the end of the chunk belongs to this chunk
+            if (in(last) != in(last - 1))
+                break;
         if (first > 0) {
             for (; first < last; ++first)
                 if (in(first) != in(first - 1))
